@@ -143,6 +143,8 @@ def gen_case(rnd, model=None, dynamics=None, **kw):
         vals = [0.0, 0.25, 0.5, 0.75, 1.0, 1.0]
         case['vi_override'] = {'run': [rnd.choice(vals) for _ in range(m)], 'pre': [rnd.choice(vals) for _ in range(m)]}
         case['prerun'] = True
+    if model == 'SIR_VariableInfection' and rnd.random() < 0.3:
+        case['vi_post'] = rnd.choice([0.125, 0.25, 0.5, 1.0])
     nameable = ('SIR', 'SIS', 'SIRS', 'SIR_FixedRecovery', 'SIS_FixedRecovery')
     if model in nameable and rnd.random() < 0.25:
         # two named instances of disease models on one network (the whole-run Coq tie covers single instances only)
@@ -165,6 +167,24 @@ def c05_cases(rnd, n):
     return out
 
 
+def vi_post_cases(rnd, n):
+    """SIR_VariableInfection whose seeds are removed by a posted event, under Gillespie dynamics with low rates: the posted
+    removal tends to fall between the selection of an infection through one edge and its firing"""
+    out = []
+    for i in range(n):
+        c = gen_case(rnd, model='SIR_VariableInfection', dynamics='stochastic', kinds=['star', 'path', 'complete', 'random'])
+        m = len(c['graph']['edges'])
+        c['vi_override'] = {'run': [rnd.choice([0.125, 0.25, 0.5]) for _ in range(m)], 'pre': [rnd.choice([0.25, 1.0]) for _ in range(m)]}
+        c['prerun'] = rnd.random() < 0.3
+        c['vi_post'] = rnd.choice([0.0625, 0.125, 0.25, 0.5])
+        c['pv']['pRemove'] = rnd.choice([0.0, 0.125])
+        c['pv']['pSeed'] = rnd.choice([0.25, 0.5])
+        c['seq'] = rnd.random() < 0.2
+        c['second'] = None
+        out.append(c)
+    return out
+
+
 class Obs:
     pass
 
@@ -178,6 +198,18 @@ def run_case(case):
     sp = spec(model)
     g = make_graph(case['graph'])
     inst = case.get('inst')
+    if model == 'SIR_VariableInfection' and case.get('vi_post') is not None:
+        # a user process in the documented way: variable infection whose seeds are removed by a POSTED event
+        # (events interleaved with posted events that empty a one-element locus)
+        T_post = case['vi_post']
+
+        class cls(ep.SIR_VariableInfection):
+            def setUp(self, params):
+                super().setUp(params)
+                net = self.network()
+                for n in list(net.nodes()):
+                    if net.nodes[n][self.COMPARTMENT] == self.INFECTED:
+                        self.postEvent(T_post, n, self.remove, name=self.REMOVED)
     try:
         proc = cls(inst) if inst is not None else cls()
     except TypeError:
